@@ -121,8 +121,12 @@ def main():
     for c in cases:
         try:
             signal.alarm(int(c.get('timeout', 40)))
+            import time as _t
+            t0 = _t.time()
             try:
-                out.append(run(c))
+                r = run(c)
+                r['secs'] = round(_t.time() - t0, 2)
+                out.append(r)
             finally:
                 signal.alarm(0)
         except CaseTimeout:
